@@ -114,7 +114,9 @@ def replay(case: dict) -> list[str]:
         chunks = dict(chunkings(noise, suf, True))[case["how"]]
         return hdlc_resync_errors(cfg, noise, suf, required(cfg, offs), chunks)
     noise = bytes.fromhex(case["noise"])
-    suf, msgs = p1_suffix()
+    suf, msgs = p1_suffix(case.get("big", False))
+    if case.get("big"):
+        return p1_resync_errors(noise, msgs, X.fixed(noise + suf, int(case["how"][5:])))
     return p1_resync_errors(noise, msgs, _p1_chunks(noise + suf, len(noise), case["how"]))
 
 
@@ -245,13 +247,17 @@ def _work_h_sweep(task) -> core.Part:
 _P1S = None
 
 
-def p1_suffix():
+def p1_suffix(big: bool = False):
     global _P1S
     if _P1S is None:
         pool = P.readout_pool()
         msgs = [pool["min_crc"], pool["six_crc"], pool["lf_crc"], pool["min_nocs"]]
-        _P1S = (b"".join(msgs), msgs)
-    return _P1S
+        lines = [b"1-0:%d.8.0(%08d.%03d*kWh)" % (i % 90 + 1, i * 7919 % 10**8, i % 1000) for i in range(200)]
+        r5k = RP.build_readout(b"/LGF5E360", lines[:170])
+        r6k = RP.build_readout(b"/KAM5", lines)
+        bigm = [pool["min_crc"], r5k, pool["six_crc"], r6k, r5k, pool["min_nocs"]]
+        _P1S = ((b"".join(msgs), msgs), (b"".join(bigm), bigm))
+    return _P1S[1 if big else 0]
 
 
 def p1_resync_errors(noise, msgs, chunks) -> list[str]:
@@ -274,18 +280,18 @@ def _p1_chunks(S, b, how):
     return [S[:b + d], S[b + d:]]
 
 
-def _prun(p, noise, label, hows):
-    suf, msgs = p1_suffix()
+def _prun(p, noise, label, hows, big=False):
+    suf, msgs = p1_suffix(big)
     S = noise + suf
     for how in hows:
         if how.startswith("cut") and not (0 < len(noise) + int(how[3:]) < len(S)):
             continue
-        errs = p1_resync_errors(noise, msgs, _p1_chunks(S, len(noise), how))
+        errs = p1_resync_errors(noise, msgs, _p1_chunks(S, len(noise), how) if not big else X.fixed(S, int(how[5:])))
         p.add("executions")
         p.out("resynchronised" if not errs else "lost_readouts")
         if errs:
-            p.viol("resync_p1", f"resync_p1:{noise.hex() if len(noise) <= 48 else label}:{how}", f"{label} {how}: {errs[0]}",
-                   {"reader": "p1", "noise": noise.hex(), "how": how}, size=len(noise))
+            p.viol("resync_p1", f"resync_p1:{noise.hex() if len(noise) <= 48 else label}:{how}:{big}", f"{label} {how}{' (suffix with 5-6 KiB readouts)' if big else ''}: {errs[0]}",
+                   {"reader": "p1", "noise": noise.hex(), "how": how, "big": big}, size=len(noise))
 
 
 P1_HOWS = ("oneshot", "bytewise", "fixed7", "cut+0", "cut-1", "cut+1", "fixed1000")
@@ -322,6 +328,8 @@ def _work_p_struct(task) -> core.Part:
     noises.append(("ident + 9000 B of data lines", b"/ABC5xyz\r\n" + line * 310))
     for label, noise in noises[lo:hi]:
         _prun(p, noise, label, P1_HOWS if len(noise) < 300 else ("oneshot", "fixed7", "cut+0", "fixed1000"))
+        if len(noise) % 5 == 0 or len(noise) > 300:
+            _prun(p, noise, label, ("fixed64", "fixed256", "fixed1000", "fixed13"), big=True)
         p.add("nontrivial")
     return p
 
